@@ -100,6 +100,15 @@ TEXT = {
             "dump and byte-identical trace files fresh vs after history.",
             "Only the loop nest runs inside a session (operands prepared before); matchRanks closures never join two loop "
             "ranks of one kernel."),
+    "C16": ("Hypothesis PBT + exhaustive small domain: recorded loop structure -> expected rows per trace role, "
+            "threshold and file/consumable differential",
+            "Generated kernels (1-4 loop ranks) and single-operator nests (iteration, two-finger and leader-follower "
+            "intersection, populate with body plans, project) with every label 0-5 of every trace type registered as file "
+            "and consumable; headers, one row per traced access, stamp order, point columns and fiber positions compared "
+            "with a model built from the recorded execution; identical files for flush thresholds {2,3,5,1000}; all pairs "
+            "of shape-3 fibers enumerated for a & b and z << a.",
+            "Open finding P11 (positions count presented elements) is normalised on the four source-side roles only; "
+            "destination rows of inserting populates are only required to be ordered and complete (as the statement says)."),
     "C17": ("Hypothesis PBT + exhaustive small domain: buffet window accounting, furthest-next-use reference and "
             "exhaustive optimal-replacement search, metamorphic relations",
             "Synthetic and kernel-derived traces, 1-3 bindings, all evict-on choices, capacities and line sizes; buffet "
